@@ -13,7 +13,7 @@ import collections
 from harness import buildlib as B
 from harness.common import Run
 
-CONE = ["Base.v", "IR.v", "Show.v", "Build.v", "Sem.v", "Plan.v", "Named.v", "Validate.v", "BuildFacts.v", "SemFacts.v", "CompilePres.v", "ScopeFacts.v", "DfsFacts.v", "EmitFacts.v", "IOFacts.v", "SsaFacts.v", "GlobalFacts.v", "InlineDefs.v"]
+CONE = ["Base.v", "IR.v", "Show.v", "Build.v", "Sem.v", "Plan.v", "Named.v", "Validate.v", "BuildFacts.v", "SemFacts.v", "CompilePres.v", "ScopeFacts.v", "DfsFacts.v", "EmitFacts.v", "IOFacts.v", "SsaFacts.v", "GlobalFacts.v", "InlineDefs.v", "InlineInj.v", "InlineSeq.v", "GlobalInline.v"]
 PROPS = "props/C02.v"
 
 
@@ -113,12 +113,20 @@ def run(run: Run) -> int:
     mism = B.correspondence(run, "c02", cases)
     # premise of the validator-free whole-model uniqueness theorem, evaluated on every program that builds
     built = [c for c in cases if c.coq is not None and c.model_proto is not None]
-    hdr = B.COQ_HEADER.replace("Build Show Validate.", "Build Show Validate GlobalFacts.")
-    flags = run.coq_eval("c02glob", hdr, [f"(has_inline_b {p}, global_premises_req {p} {r})" for p, r in (c.coq for c in built)],
+    hdr = B.COQ_HEADER.replace("Build Show Validate.", "Build Show Validate GlobalFacts GlobalInline.")
+    flags = run.coq_eval("c02glob", hdr, [f"(has_inline_b {p}, global_premises_req {p} {r}, global_premises2_req {p} {r})" for p, r in (c.coq for c in built)],
                          shard=max(1, min(40, (len(built) + 15) // 16)))
-    n_noinl = n_prem = 0
+    n_noinl = n_prem = n_inl = n_prem2 = 0
     for c, x in zip(built, flags):
-        has_inl, ok = [t.strip() for t in x.strip().strip("()").split(",")]
+        has_inl, ok, ok2 = [t.strip() for t in x.strip().strip("()").split(",")]
+        if has_inl == "true":
+            # inlined models of the generator are built by spox itself: they define every name once, so the premise of the
+            # theorem that covers inlined blocks must hold as well
+            n_inl += 1
+            n_prem2 += ok2 == "true"
+            if ok2 != "true":
+                run.fail("corr", "C02/global-premise-not-met/inlined", "a program with (spox-built) inlined models that builds does not meet the premise of "
+                         "C02_value_names_unique_in_the_whole_model_with_inlined_blocks_by_construction", B.describe(c))
         if has_inl == "false":
             n_noinl += 1
             n_prem += ok == "true"
@@ -150,6 +158,7 @@ def run(run: Run) -> int:
     cov = {
         "evaluations": len(cases), "distinct_nontrivial": len(distinct),
         "whole_model_uniqueness_premise_met": f"{n_prem} of {n_noinl} built programs without inlined models",
+        "whole_model_uniqueness_with_inlined_blocks_premise_met": f"{n_prem2} of {n_inl} built programs with inlined models",
         "rule": "random nested programs (If/Loop/Scan bodies to depth 3, closures, sharing, leaks, multi-output, optional and "
                 "variadic inputs, initializers), user names benign or harvested from a previous build of the same program, "
                 "drop_unused_inputs in {False,True}; distinct by rendering; non-trivial = at least one subgraph",
